@@ -137,6 +137,29 @@ pub fn c11_unicode(c: &StrCase) -> Outcome {
     Ok(words.len() >= 2)
 }
 
+
+/// A13 — the shape Verus unit U20 ASSUMES of unicode_linebreak::linebreaks(s): strictly increasing byte offsets, each in
+/// 1..=s.len(), each on a char boundary. Checked here on the real crate, on the
+/// ESC-stripped text exactly as find_words_unicode_break_properties passes it.
+#[cfg(feature = "full")]
+pub fn a13_linebreaks_shape(c: &StrCase) -> Outcome {
+    let stripped = strip_ansi(&c.text).unwrap_or_default();
+    for s in [c.text.as_str(), stripped.as_str()] {
+        let pts: Vec<usize> = unicode_linebreak::linebreaks(s).map(|(i, _)| i).collect();
+        let mut prev = 0usize;
+        for &p in &pts {
+            if p == 0 || p > s.len() || !s.is_char_boundary(p) {
+                return Err(format!("linebreaks({:?}) reports {} which is not a char boundary in 1..={}", s, p, s.len()));
+            }
+            if p <= prev && prev != 0 {
+                return Err(format!("linebreaks({:?}) is not strictly increasing: {:?}", s, pts));
+            }
+            prev = p;
+        }
+    }
+    Ok(c.text.len() >= 2)
+}
+
 // ------------------------------------------------------------------------------------------- C12
 pub fn c12_split(c: &StrCase) -> Outcome {
     // c.text is one word (possibly with trailing spaces); c.aux names the splitter
